@@ -23,12 +23,13 @@ class Query:
 
 
 class Session:
-    def __init__(self, name, mode="debug", unroll=1, timeout=120, cross_check=True, max_paths=4000):
+    def __init__(self, name, mode="debug", unroll=1, timeout=120, cross_check=True, max_paths=4000, generics=None):
         fns, consts, src, path, secs, th = load(True)
         self.name = name
         self.dump_path, self.dump_secs, self.tree_hash = path, secs, th
         self.ctx = Ctx()
         self.ex = symex.Executor(fns, consts, src, self.ctx, mode=mode, unroll=unroll, max_paths=max_paths)
+        self.ex.generics = dict(generics or {})
         self.state = symex.State()
         self.assumptions = []
         self.inputs = {}      # user name -> smt name
@@ -91,7 +92,7 @@ class Session:
         v, model, dt, raw = solve.check(body, self.timeout, "cvc5")
         cross = None
         if self.cross_check and v in ("sat", "unsat") and dt < 5.0:
-            v2, m2, dt2, raw2 = solve.check(body, min(self.timeout, 20), "z3")
+            v2, m2, dt2, raw2 = solve.check(body, min(self.timeout, 10), "z3new")
             cross = v2
             if v2 in ("sat", "unsat") and v2 != v:
                 q = Query(qname, "disagree", dt + dt2, None, "cvc5=%s z3=%s" % (v, v2), kind, cross)
@@ -129,7 +130,7 @@ class Session:
         self.queries.append(q)
         return q
 
-    def check_obligations(self, prefix, kinds=("panic", "unwind")):
+    def check_obligations(self, prefix, kinds=("panic", "unwind", "exhaustive")):
         """every recorded panic / unwinding obligation must be unreachable under the assumptions"""
         out = []
         for i, (kind, label, cond) in enumerate(self.ex.obligations):
